@@ -46,8 +46,11 @@ class Taint(AbstractValue):
         return 'Taint(%s%s)' % (self.label, (' ' + repr(changed)) if changed else ' raw')
 
     def clone(self, images=None, imprecise=None, label=None, op=None):
-        return Taint(label or self.label, images if images is not None else self.images, self.allowed,
-                     self.imprecise if imprecise is None else imprecise, self.ops + ((op,) if op else ()))
+        t = Taint(label or self.label, images if images is not None else self.images, self.allowed,
+                  self.imprecise if imprecise is None else imprecise, self.ops + ((op,) if op else ()))
+        if getattr(self, 'word', False):
+            t.word = True
+        return t
 
     def lossy(self):
         return [o for o in self.ops if o in self.LOSSY]
@@ -105,9 +108,13 @@ class Taint(AbstractValue):
         return AbsInt(('len', self.prov))
 
     def abs_truth(self, interp):
+        if getattr(self, 'word', False):
+            return True
         return interp.oracle.decide(('cond', ('nonempty', self.prov)), ('nonempty', self.label))
 
     def abs_compare(self, interp, op, other, reflected):
+        if getattr(self, 'word', False) and isinstance(other, str) and not other.strip() and op in (ast.Eq, ast.NotEq):
+            return op is ast.NotEq
         return Cond(('taintcmp', op.__name__, self.prov, _freeze(other)))
 
     def abs_contains(self, interp, item):
@@ -253,6 +260,8 @@ class Skel(AbstractValue):
     def abs_truth(self, interp):
         if any(isinstance(p, str) and p for p in self.parts):
             return True
+        if any(isinstance(p, Hole) and isinstance(p.value, Taint) and getattr(p.value, 'word', False) for p in self.parts):
+            return True
         return interp.oracle.decide(('cond', ('nonempty', id(self))), 'nonempty-skel')
 
     def abs_method(self, interp, name, args, kwargs):
@@ -278,6 +287,9 @@ class Skel(AbstractValue):
         return _AbsBound(self, name)
 
     def abs_compare(self, interp, op, other, reflected):
+        if isinstance(other, str) and not other.strip() and op in (ast.Eq, ast.NotEq) and any(
+                isinstance(p, Hole) and isinstance(p.value, Taint) and getattr(p.value, 'word', False) for p in self.parts):
+            return op is ast.NotEq       # text containing a (non-blank) word is not a whitespace-only constant
         return Cond(('skelcmp', op.__name__, id(self), _freeze(other)))
 
     def abs_getitem(self, interp, idx):
